@@ -249,7 +249,7 @@ func (b *built) verify(msg []byte) (p *pkcs7.PKCS7, err error) {
 			err = cfca.VerifyMessageAttach(msg)
 		}
 		if err != nil {
-			return nil, err
+			return cfcaOpaque, err // the cfca verifiers do not tell a parse failure from a verification failure
 		}
 		p, perr := pkcs7.Parse(msg)
 		if perr != nil {
@@ -285,6 +285,8 @@ func (b *built) verify(msg []byte) (p *pkcs7.PKCS7, err error) {
 	}
 	return p, err
 }
+
+var cfcaOpaque = &pkcs7.PKCS7{}
 
 func (b *built) trusted() bool { return b.spec.vpath != "plain" && b.spec.api != "cfca" }
 
@@ -595,6 +597,8 @@ func roundTripSigned(c *mon.Case, b *built) bool {
 		stage := "verify"
 		if p == nil {
 			stage = "parse"
+		} else if p == cfcaOpaque {
+			stage = "parse or verify"
 		}
 		c.Detail("message", b.der)
 		c.Fail("reject", "honest SignedData fails to %s: %v; message: %v", stage, err, b.spec)
